@@ -552,6 +552,23 @@ def check_item(item: tuple) -> dict:
         for label, m in mutations(d, ctxt, False):
             if label.startswith(("zero-signature", "signed-by-other-key", "key-substituted", "payload-splice")):
                 deliver_after_fault(label + "|after-send-failure", m)
+        # fourth pass: the genuine datagram and a forgery are read from the socket back to back, both handled in the
+        # same loop iteration (nothing the first one scheduled has run when the second one arrives)
+        def deliver_same_iteration(label: str, data: bytes) -> None:
+            before = {p.public_key.key_to_bin() for p in r_ov.network.verified_peers}
+            try:
+                r_node.endpoint.notify_listeners((src, d))
+            except Exception:  # noqa: BLE001, S110
+                pass
+            deliver(label, data)
+            for p in list(r_ov.network.verified_peers):
+                if p.public_key.key_to_bin() not in before:
+                    r_ov.network.remove_peer(p)
+
+        for label, m in mutations(d, ctxt, False):
+            if label.startswith(("bitflip:payload", "payload-splice", "key-substituted", "signature-of-other",
+                                 "msgid-swap", "prefix")):
+                deliver_same_iteration(label + "|same-iteration-as-valid", m)
         res["sample"] = {"overlay": name, "msg_id": mid, "handler": handler_name, "curve": curve, "len": len(d),
                          "valid_prefix_hex": d[:40].hex()}
         return res
